@@ -319,7 +319,9 @@ func newC20Stack() (*c20Stack, error) {
 	s := &c20Stack{c: c, node: c.Nodes[1], rig: c.Nodes[1].Rig}
 	r := s.rig
 	for i := 0; i < c20Accounts; i++ {
-		s.accts = append(s.accts, r.AddSymAccount("Wallet 1", fmt.Sprintf("acct-%d", i), "pass", true))
+		a := c20Acct(i)
+		r.Adopt("Wallet 1", a)
+		s.accts = append(s.accts, a)
 	}
 	if s.signer, err = signerhandler.New(r.Ctx, signerhandler.WithSigner(r.Signer)); err != nil {
 		return nil, err
@@ -482,6 +484,32 @@ type c20Case struct {
 }
 
 // c20Cases builds the deterministic case list (identical in parent and worker).
+// c20Acct is the i-th account of Wallet 1 (its key is the same in every process, so that a case can name it by key).
+func c20Acct(i int) *rig.Acct {
+	return rig.SymAcctFromSeed(fmt.Sprintf("acct-%d", i), fmt.Sprintf("c20-acct-%d", i), "pass", true)
+}
+
+// c20Twice: the ways a batch can name one account twice (by name twice, by key twice, and with the second mention
+// spelt as the key followed by one more byte, which resolves to the same account).
+func c20Twice() []struct {
+	desc string
+	ids  [2][2]any // (name, key) per entry
+} {
+	p := c20Acct(0).PubBytes()
+	long := append(append([]byte{}, p...), 0x00)
+	n := "Wallet 1/acct-0"
+	return []struct {
+		desc string
+		ids  [2][2]any
+	}{
+		{"by name twice", [2][2]any{{n, nil}, {n, nil}}},
+		{"by key twice", [2][2]any{{"", p}, {"", p}}},
+		{"by name and by key", [2][2]any{{n, nil}, {"", p}}},
+		{"by name and by the key plus one byte", [2][2]any{{n, nil}, {"", long}}},
+		{"by key and by the key plus one byte", [2][2]any{{"", p}, {"", long}}},
+	}
+}
+
 func c20Cases(tier string) ([]c20Case, []c20RPC, [][]c20Mut) {
 	rig.Init()
 	rpcs := c20RPCs()
@@ -504,6 +532,19 @@ func c20Cases(tier string) ([]c20Case, []c20RPC, [][]c20Mut) {
 		// Batches of well-formed entries of every listed size (one departure: the length of the list).
 		switch def.(type) {
 		case *pb.MultisignRequest:
+			for _, tw := range c20Twice() {
+				tw := tw
+				ms = append(ms, c20Mut{Desc: fmt.Sprintf("%s.requests=one account twice (%s)", r.Name, tw.desc), Set: func(m protoreflect.Message) {
+					g := m.Interface().(*pb.MultisignRequest)
+					g.Requests = nil
+					for i, id := range tw.ids {
+						d := make([]byte, 32)
+						d[0] = 7
+						k, _ := id[1].([]byte)
+						g.Requests = append(g.Requests, mkSignReq(id[0].(string), k, pat(byte(9+i)), d))
+					}
+				}})
+			}
 			for _, n := range c20BatchSizes {
 				n := n
 				ms = append(ms, c20Mut{Desc: fmt.Sprintf("%s.requests=%d well-formed entries", r.Name, n), Set: func(m protoreflect.Message) {
@@ -517,6 +558,23 @@ func c20Cases(tier string) ([]c20Case, []c20RPC, [][]c20Mut) {
 				}})
 			}
 		case *pb.SignBeaconAttestationsRequest:
+			for _, tw := range c20Twice() {
+				tw := tw
+				ms = append(ms, c20Mut{Desc: fmt.Sprintf("%s.requests=one account twice (%s)", r.Name, tw.desc), Set: func(m protoreflect.Message) {
+					g := m.Interface().(*pb.SignBeaconAttestationsRequest)
+					tmpl := g.GetRequests()[0]
+					g.Requests = nil
+					for _, id := range tw.ids {
+						q := proto.Clone(tmpl).(*pb.SignBeaconAttestationRequest)
+						if k, _ := id[1].([]byte); k != nil {
+							q.Id = &pb.SignBeaconAttestationRequest_PublicKey{PublicKey: k}
+						} else {
+							q.Id = &pb.SignBeaconAttestationRequest_Account{Account: id[0].(string)}
+						}
+						g.Requests = append(g.Requests, q)
+					}
+				}})
+			}
 			for _, n := range c20BatchSizes {
 				n := n
 				ms = append(ms, c20Mut{Desc: fmt.Sprintf("%s.requests=%d well-formed entries", r.Name, n), Set: func(m protoreflect.Message) {
